@@ -260,8 +260,71 @@ use falcon_rust::verif_hooks::Event;
 /// built from the basis) is replayed on the recorded OUTPUTS and must predict every recorded
 /// centre and width: a deterministic oracle for the tree (L entries and leaves) and the
 /// recursion (sub-tree order, the t0' adjustment, which leaf feeds which call).
+/// Specification SamplerZ replayed call by call on the bytes the signer's sampler drew.
+/// Returns (calls that agree before the first disagreement, Some(index, got, want) of the first
+/// disagreement). `None` as a whole when the stream does not fit the 9+1+7 pattern at all.
+fn replay_stream(calls: &[(f64, f64, f64, i64)], stream: &[u8]) -> (usize, Option<(usize, i64, Option<i64>)>) {
+    let mut cur = 0usize;
+    for (i, &(mu, sigma, sigmin, z)) in calls.iter().enumerate() {
+        // extend the window chunk by chunk until the specification accepts
+        let mut k = 1;
+        loop {
+            if cur + 17 * k > stream.len() {
+                return (i, Some((i, z, None)));
+            }
+            match super::c09::spec_sampler_on_log(mu, sigma, sigmin, &stream[cur..cur + 17 * k]) {
+                Some(w) => {
+                    if w != z {
+                        return (i, Some((i, z, Some(w))));
+                    }
+                    cur += 17 * k;
+                    break;
+                }
+                None => {
+                    k += 1;
+                    if k > 400 {
+                        return (i, Some((i, z, None)));
+                    }
+                }
+            }
+        }
+    }
+    (calls.len(), None)
+}
+
+/// Keys whose signatures push sampler centres furthest from zero (a centre beyond +-2048 needs a
+/// Falcon-1024 key with an unbalanced F: about one key in six): the pool is scanned with two
+/// signatures per key and ranked by the largest |mu| seen.
+fn extreme_centre_keys<V: Fv>(ctx: &Ctx, scan: usize, take: usize, rep: &mut Report) -> Vec<crate::pool::Key<V>> {
+    let (keys, _bad) = crate::pool::keys::<V>(ctx.seed, "c10-centre-scan", scan);
+    let scores: Vec<std::sync::Mutex<f64>> = (0..keys.len()).map(|_| std::sync::Mutex::new(0.0)).collect();
+    let r = par_for(keys.len() * 2, ncpu(), |job, _rep| {
+        let k = &keys[job % keys.len()];
+        let rng = ScriptedRng::new(ctx.seed, &format!("c10-scan-{}-{}", V::NAME, job), Strategy::Honest, progress_budget(V::N));
+        let out = sign_scripted::<V>(format!("scan-{}", job).as_bytes(), &k.sk, rng, true, 0);
+        let m = out.events.iter().filter_map(|e| if let Event::SamplerCall { mu, .. } = e { Some(mu.abs()) } else { None }).fold(0.0, f64::max);
+        let mut s = scores[job % keys.len()].lock().unwrap();
+        if m > *s {
+            *s = m;
+        }
+    });
+    rep.merge(r);
+    let mut idx: Vec<usize> = (0..keys.len()).collect();
+    idx.sort_by(|&a, &b| scores[b].lock().unwrap().partial_cmp(&*scores[a].lock().unwrap()).unwrap_or(std::cmp::Ordering::Equal));
+    rep.count(&format!("{}_keys_scanned_for_extreme_centres", V::NAME), keys.len() as u64);
+    let mut out = vec![];
+    for &i in idx.iter().take(take) {
+        rep.stat_max(&format!("{}_largest_abs_centre_of_selected_keys", V::NAME), *scores[i].lock().unwrap());
+        out.push(crate::pool::Key { seed: keys[i].seed, sk: keys[i].sk.clone(), pk: keys[i].pk.clone() });
+    }
+    out
+}
+
 fn trace_v<V: Fv>(ctx: &Ctx, nkeys: usize, nsig: usize, rep: &mut Report) {
-    let (keys, _bad) = crate::pool::keys::<V>(ctx.seed, "c10-trace", nkeys);
+    let (mut keys, _bad) = crate::pool::keys::<V>(ctx.seed, "c10-trace", nkeys);
+    if V::N == 1024 {
+        keys.extend(extreme_centre_keys::<V>(ctx, ctx.sz(128, 512), ctx.sz(2, 6), rep));
+    }
     let n = V::N;
     let r = par_for(keys.len() * nsig, ncpu(), |job, rep| {
         let k = &keys[job % keys.len()];
@@ -272,7 +335,8 @@ fn trace_v<V: Fv>(ctx: &Ctx, nkeys: usize, nsig: usize, rep: &mut Report) {
         let msg = format!("trace-{}", job).into_bytes();
         // a few executions with forced norm rejections as well (several attempts per call)
         let strat = if job % 5 == 4 { Strategy::ForceAccept { rate_pm: 200, groups: 2 * n as u64 } } else { Strategy::Honest };
-        let rng = ScriptedRng::new(ctx.seed, &format!("c10-trace-{}-{}", V::NAME, job), strat, progress_budget(n));
+        let mut rng = ScriptedRng::new(ctx.seed, &format!("c10-trace-{}-{}", V::NAME, job), strat, progress_budget(n));
+        rng.record = Some(Vec::with_capacity(40 * n));
         let out = sign_scripted::<V>(&msg, &k.sk, rng, true, 0);
         let sig = match out.sig {
             Ok(s) => s,
@@ -306,6 +370,33 @@ fn trace_v<V: Fv>(ctx: &Ctx, nkeys: usize, nsig: usize, rep: &mut Report) {
         if calls.is_empty() || calls.len() % (2 * n) != 0 {
             rep.inconclusive(format!("{}: {} sampler events for one signature (expected a multiple of {})", V::NAME, calls.len(), 2 * n));
             return;
+        }
+        // every recorded sampler OUTPUT against the specification's SamplerZ on the very bytes
+        // the signer's sampler drew (the generator records them): a leaf that splits its centre
+        // differently, or a sampler variant used only by ffsampling, changes some z for the same
+        // randomness although centres, widths and the final lattice point stay consistent
+        if let Some(stream) = out.recorded.as_ref() {
+            let full: Vec<(f64, f64, f64, i64)> = out.events.iter().filter_map(|e| if let Event::SamplerCall { mu, sigma, sigmin, z } = e { Some((*mu, *sigma, *sigmin, *z as i64)) } else { None }).collect();
+            let (agree, dis) = replay_stream(&full, stream);
+            rep.count("sampler_outputs_compared_on_same_randomness", (agree + dis.is_some() as usize) as u64);
+            rep.count("sampler_outputs_agreeing_on_same_randomness", agree as u64);
+            let far = full.iter().filter(|c| c.0.abs() > 2048.0).count();
+            rep.count("sampler_calls_with_centre_beyond_2048", far as u64);
+            rep.stat_max("largest_abs_centre_in_traces", full.iter().map(|c| c.0.abs()).fold(0.0, f64::max));
+            if let Some((i, got, want)) = dis {
+                rep.count("signatures_with_a_sampler_output_disagreement", 1);
+                // a violation only when the byte-consumption pattern is evidently the specification's
+                // (hundreds of agreeing calls before the first disagreement)
+                if agree >= 200 {
+                    rep.violation(
+                        "ffsampling:sampler-output-differs-from-SamplerZ-on-same-randomness",
+                        format!("{}: sampler call {} (mu = {}, sigma' = {}) returned {} but SamplerZ on the same random bytes returns {:?}; the {} calls before it agree", V::NAME, i, full[i].0, full[i].1, got, want, agree),
+                        json!({"variant": V::NAME, "key_seed": hex(&k.seed), "msg": hex(&msg), "note": "re-run the leg with the recorded seed"}),
+                    );
+                }
+            } else {
+                rep.count("signatures_fully_agreeing_with_SamplerZ_on_same_randomness", 1);
+            }
         }
         // target t = (c F / q, -c f / q) in the FFT domain (sign convention of the signer; the
         // opposite convention is tried as well and accepted, it is not a property)
@@ -405,4 +496,5 @@ pub fn trace(ctx: &Ctx, rep: &mut Report) {
     rep.require("attempts_after_a_norm_rejection", 1);
     rep.require("signature_vectors_recomputed_exactly", 20);
     rep.require("signatures_reproduced_under_concurrency", 200);
+    rep.require("sampler_outputs_agreeing_on_same_randomness", 50_000);
 }
